@@ -240,6 +240,27 @@ def reset_adversaries():
                 out.append(main)
     return out
 
+def abort_histories():
+    """a render call aborted by an exception (a throwing callback, or an exhausted interpreter stack) that the application
+    catches, then a reset call: implementation only (the model's failure outcome carries no state)"""
+    aborted = [("- a\n.#dup\n- b\n.#dup\n- c", 'raise'), ("* x\n- y\n.#d\n- z\n.#d\n- w", 'raise'), (". a\n.. b\n{undef}\n", 'raise'),
+               ("[link](http://a.b) <b>t</b> {undef} `c`", 'raise'), ("t:: d\n.#k\nu:: e\n.#k\nv:: f", 'raise'),
+               ("..\n- a\n.#q\n- b\n.#q\n- c\n..", 'raise'), ("[link](http://a.b) " + "*q* " * 3000, True),
+               (".cls #i \"c:d\"\n{undef}", 'raise'), ("{m}='v'\n|code|='+macros'\n{undef}", 'raise'), ("*a* [l](u) <i>x</i> {undef|p} &amp; http://x.y", 'raise')]
+    probes = ["* x\n- y\n* z", "- a\n- b", "one [the docs](http://d.e) and `code [x](y)` here", ". a\n.. b\n. c", "t:: d\nu:: e",
+              "*a* <b>t</b> `c` http://a.b", "para\n\n- a\n\n  ind"]
+    out = []
+    for (a, cbk), q in __import__('itertools').product(aborted, probes):
+        for mode in (0, 1):
+            last = {'src': q, 'reset': True, 'safeMode': mode, 'cb': True}
+            main = {'kind': 'H', 'state': False, 'continue_after_raise': True,
+                    'calls': [{'src': a, 'safeMode': 0, 'reset': True, 'cb': cbk}, last]}
+            main['variants'] = [{'kind': 'H', 'state': False, 'calls': [last]}]
+            main['meta'] = {'abort': True}
+            out.append(main)
+    return out
+
+
 INJECTIONS += ['.-container\n""\n<b>never closed\n""', '.cls -container\n..\n<i>x\n..', '.-spans\n- <b>never closed\n- second',
                '.-macros\n> <b>', '.-spans -macros\n<b>x', '.-container\n>>\n<b>\n>>', '.-spans\n> <script>alert(1)</script>',
                '.-container -macros\n""\n<u>\n""', '.+skip\n""\n<b>\n""', '.-specials -container\n..\n<b>\n..']
